@@ -19,12 +19,13 @@ type ProcSys struct {
 	cfg  ProcCfg
 	gens int
 	// settings generation: bumped by reconfigure so stamps show which config handled a record
-	opened   map[int]int // gen -> open count
-	torndown map[int]int
+	opened      map[int]int // gen -> open count
+	torndown    map[int]int
+	failedOpens map[int]int // gen -> opens that returned an error (the engine may or may not tear those down)
 }
 
 func newProcSys(w *World, cfg ProcCfg) *ProcSys {
-	return &ProcSys{w: w, cfg: cfg, opened: map[int]int{}, torndown: map[int]int{}}
+	return &ProcSys{w: w, cfg: cfg, opened: map[int]int{}, torndown: map[int]int{}, failedOpens: map[int]int{}}
 }
 
 // ProcPluginService implements processor.PluginService.
@@ -82,6 +83,7 @@ func (p *simProc) Open(ctx context.Context) error {
 	d := w.park(ctx, "proc.open", p.sys.cfg.ID, p.inc, nil, "plugin.err")
 	fail := d.fault != "" || (p.settings != nil && p.settings["open"] == "fail")
 	if fail {
+		p.sys.failedOpens[p.gen]++
 		w.log(Event{Kind: "PROC_OPEN", Ent: p.sys.cfg.ID, Inc: p.inc, N: p.gen, Err: "open failed"})
 		if d.fault == "ctx" {
 			return ctx.Err()
